@@ -171,6 +171,7 @@ impl PositionBundle {
         r is Ok <==> (bundle_index < 256 && !bundle_open(old(self).position_bitmap, bundle_index as int)),
         r is Ok ==> (forall|j: int| 0 <= j < 256 ==> #[trigger] bundle_open(final(self).position_bitmap, j) == (j == bundle_index || bundle_open(old(self).position_bitmap, j))),
         r is Err ==> *final(self) == *old(self),
+        final(self).position_bundle_mint == old(self).position_bundle_mint,
 //@ end
 //@ fn state/position_bundle.rs close_bundled_position in=/^impl PositionBundle \{/ -> r
     ensures
